@@ -292,6 +292,31 @@ def check_order(ctx: Context, rep, rule: str) -> None:
            construct="match value_np.dtype.byteorder / sys.byteorder",
            message="normalisation dispatches on the array's and the "
            "platform's byte order")
+    # the byte order that is tested is the byte order of the array that is
+    # dumped: no dtype conversion between the test and tobytes
+    wcfg = ctx.cfg(fn)
+    tests = [n for n in wcfg.nodes if n.kind == "test" and n.ast is not None
+             and norm.canon(fn, n.ast).endswith("dtype.byteorder")]
+    after = wcfg.reachable(tests, follow=lambda a, b, lab: lab != "exc",
+                           strict=True) if tests else set()
+
+    def converts(c: ast.Call) -> bool:
+        if ctx.is_call(fn, c, "numpy.array", "numpy.asarray",
+                       "numpy.ascontiguousarray", "numpy.asanyarray",
+                       "numpy.frombuffer"):
+            return ctx.arg(c, 1, "dtype") is not None
+        return isinstance(c.func, ast.Attribute) and c.func.attr in (
+            "astype", "view", "newbyteorder")
+
+    late = [n for n in wcfg.calls(converts) if n in after]
+    rep.ob(rule, bool(tests) and not late,
+           loc=fn.loc(late[0].ast) if late else fn.loc(), where=fn.qualname,
+           construct=("conversion after the byte-order test: " +
+                      short(late[0].ast, 60)) if late else
+           "cast -> byte-order test -> [byteswap] -> tobytes",
+           message="the array whose byte order was tested (and swapped) is "
+           "the array that is dumped; a dtype conversion after the test "
+           "re-interprets already swapped bytes")
     # reader
     dec = ctx.fn(f"{FBR}:IterateShardFlatBuffer.decode_array")
     from sa.dataflow import TagFlow
@@ -320,6 +345,20 @@ def check_order(ctx: Context, rep, rule: str) -> None:
     rep.ob(rule, len(fb) == 1, loc=dec.loc(), where=dec.qualname,
            construct=f"{len(fb)} frombuffer site(s)",
            message="the bytes are decoded once")
+    # ... on every path (the tags above are may-information)
+    le_nodes = [n for n in dcfg.calls() if isinstance(
+        n.ast.func, ast.Attribute) and n.ast.func.attr == "newbyteorder" and
+        const_str(ctx.arg(n.ast, 0, "new_order")) in ("<", "little", "L")]
+    around = dcfg.reachable([dcfg.entry], avoiding=le_nodes,
+                            follow=lambda a, b, lab: lab != "exc")
+    skipped = [n for n in fb if n in around]
+    rep.ob(rule, bool(le_nodes) and not skipped,
+           loc=dec.loc(skipped[0].ast) if skipped else dec.loc(),
+           where=dec.qualname,
+           construct="newbyteorder('<') on every path to frombuffer",
+           message="the little-endian pinning of the dtype is unconditional "
+           "(a declared dtype may carry its own byte-order marker; the "
+           "stored bytes are always little endian)")
 
     def alternatives(e):
         if isinstance(e, ast.IfExp):
